@@ -247,3 +247,9 @@ Qed.
 Lemma sqx_getcount_id : forall c b st en,
   sqx_getcount (fun t => t) (fun t => t) c b st en = snd (sq_step c (GetEventCount b st en)).
 Proof. reflexivity. Qed.
+
+(* the hypothesis on a float window parameter, as one named predicate *)
+Definition float_param_ok (p : Z -> Z) : Prop := forall t, 0 <= t < 2 ^ 52 -> t - 1 <= p t <= t + 1.
+
+Lemma float_param_ok_id : float_param_ok (fun t => t).
+Proof. intros t H. lia. Qed.
